@@ -49,6 +49,30 @@ check("C16", "exploration",
       "Release profile only (the script states recurse per byte in debug builds). Longer inputs are not covered.",
       "DESIGN.md 3.4, 4 (C16)", "E4 product enumerator")
 
+check("C01", "model_checking",
+      "explicit-state BFS over insert histories of the real Router (state keyed by the canonical snapshot of all matcher layers), flat-predicate oracle on deviation-bounded probe sets",
+      "Routers are built by every insert history of depth 1 over the full star-and-pairs trigger universe (base rule, every single-trigger deviation, every cross-dimension pair, six all-dimension rules: ~900 rules) and depth 2 (quick) / 3 (thorough) over a ~90-rule sub-universe, under 4 (quick) / 16 (thorough) flag configurations. At every state, for every live rule, its all-satisfying request and every request differing from it in <=2 (<=1 at the deeper levels) trigger dimensions are matched; the multiset of returned ids must be exactly the rules whose per-trigger reference predicate holds, with the any-host policy applied per scheme scope. Missed, spurious and duplicate rules are separate violations.",
+      "Reference predicate validated against the implementation over 127M evaluations in round 0. ASCII paths only (C09 covers normalisation). Pairs the statement leaves open (not_in_range x no client address) are not asserted.",
+      "DESIGN.md 3.1, 3.1.1", "E1 router-state explorer")
+
+check("C02", "model_checking",
+      "explicit-state BFS over histories of insert/remove/batch_remove/change-set/cache on the real Router, rebuild-from-scratch differential + flat-predicate oracle, parent-isolation check on every transition",
+      "Every history of <=5 (quick) / <=6 (thorough) operations over a 9-variant universe in which variants share ids (static<->dynamic path, bucket moves, shared tree nodes, rule in four buckets at once, dynamic hosts). Children are always derived by clone-then-mutate from an Arc-shared parent (change-sets through RuleChangeSet::update_existing_router), and after every transition the parent's canonical snapshot must be unchanged. At every state: answers == router rebuilt from the live rules == reference predicate on probes around every rule ever inserted (so removed rules are probed too), len == |live|, get_route_by_id, and remove returns Some(rule) iff the id was live.",
+      "Ids are inserted only when not live (the property's precondition).",
+      "DESIGN.md 3.1.2", "E1 router-state explorer")
+
+check("C12", "model_checking",
+      "explicit-state BFS over tree and router histories with cache operations interleaved; at every state the full (limit, level) grid / every limit 0..N+1 is applied to a clone and observations compared",
+      "Tree half: at every state of the tree explorer (histories <=3/<=4 incl. cache operations) every (limit in {0,1,2,3,8}, level in {None,0..3}) is applied to a clone, once and twice, and find() on 52 haystacks must be unchanged. Router half: at every state of the history explorer (<=3/<=4 operations incl. cache(None|1|2) interleaved with updates) match ids, captures of every matched route and the canonicalised trace are compared between the router and its clone after cache(n) for n in {None,0..3|live|+2}, for the history-shaped and for a freshly rebuilt router, plus cache twice and cache(a) then cache(b); the possibly partially warmed state must answer like the never-cached rebuild.",
+      "Trace arrays whose order comes from hash-map iteration are sorted before comparison.",
+      "DESIGN.md 3.1.4, 3.2", "E1 + E2")
+
+check("C17", "model_checking",
+      "explicit-state BFS over insert histories of the real Router; trace-vs-match agreement at every state and probe",
+      "Same states and probe sets as C01 (smaller plans: tracing costs ~30x a match). At every probe: set of rules extracted from trace_request == set matched for the normalised request == set matched for the request; priority of the serialised get_trace final rule == priority of get_route, which must be maximal; for tie-free ranks the last TraceAction step serialises exactly like Action::from_routes_rule.",
+      "Rule universe of C01 carries no action payload; payload-carrying action traces are compared in C05/C19.",
+      "DESIGN.md 3.1.3", "E1 router-state explorer")
+
 ALL = [f"C{n:02d}" for n in range(1, 20)]
 
 NOT_BUILT_REASON = "check not built yet in this round (planned, see DESIGN.md section 0); not claimed until its explorer exists and has been shown to detect a seeded change"
